@@ -147,24 +147,51 @@ def unaryop_eval(O):
                 O.fail_path(p, "unary %s panics: %s" % (name, p.detail), facts, scen, judge, extra=cls)
 
 
+_CHAIN_VALS = ((23, 5, 3, 2), (1, 2, 3, 4), (6, 3, 2, 1))
+_LEVEL_REPS = None
+
+
+def _chain_ref(vals, ops):
+    """Reference value of `v0 o1 v1 o2 v2 ...`: lower level binds tighter, equal levels group to the left."""
+    vals, ops = list(vals), list(ops)
+    while ops:
+        lv = min(LEVEL[o] for o in ops)
+        i = next(k for k, o in enumerate(ops) if LEVEL[o] == lv)
+        r = py_binop(ops[i], vals[i], vals[i + 1])
+        if r is None:
+            return None
+        vals[i:i + 2] = [r]
+        del ops[i]
+    return vals[0]
+
+
+def _chain_scenario(ops, vi=0):
+    vals = _CHAIN_VALS[vi]
+    txt = str(vals[0])
+    for k, o in enumerate(ops):
+        txt += " %s %d" % (OPS[o], vals[k + 1])
+    return Scenario("A V\ndeclare V = 0;\n0 (%s)\n" % txt, [("in", "A", 1, 0)], note="%d %s" % (vi, " ".join(ops)))
+
+
 def _prec_scenarios(n1, n2):
-    """Two operators of different reference level: `a o1 b o2 c` must group by level; equal level: left-assoc."""
-    a, b, c = 23, 5, 3
-    s1, s2 = OPS[n1], OPS[n2]
-    return [Scenario("A V\ndeclare V = 0;\n0 (%d %s %d %s %d)\n" % (a, s1, b, s2, c), [("in", "A", 1, 0)],
-                     note="%s %s" % (n1, n2))]
+    """`a o1 b o2 c` must group by level (equal level: to the left); and, because one `add` step starts from an
+    arbitrary tree, the three-operator chains `a o1 b m c o2 d` with one operator m of every tighter level than o1
+    (the right spine of the tree is then two deep when o2 arrives)."""
+    global _LEVEL_REPS
+    if _LEVEL_REPS is None:
+        _LEVEL_REPS = {}
+        for o in OPS:
+            _LEVEL_REPS.setdefault(LEVEL[o], o)
+    out = [_chain_scenario([n1, n2])]
+    for lv, m in sorted(_LEVEL_REPS.items()):
+        if lv < LEVEL[n1]:
+            out += [_chain_scenario([n1, m, n2], vi) for vi in range(len(_CHAIN_VALS))]
+    return out
 
 
 def _prec_judge(obs, sc):
-    n1, n2 = sc.note.split(" ")
-    a, b, c = 23, 5, 3
-    if LEVEL[n2] < LEVEL[n1]:
-        inner = py_binop(n2, b, c)
-        want = py_binop(n1, a, inner) if inner is not None else None
-    else:
-        inner = py_binop(n1, a, b)
-        want = py_binop(n2, inner, c) if inner is not None else None
-    return expr_judge(want)(obs, sc)
+    vi, *ops = sc.note.split(" ")
+    return expr_judge(_chain_ref(_CHAIN_VALS[int(vi)][:len(ops) + 1], ops))(obs, sc)
 
 
 @obligation("C08/precedence-table", profiles=("dev",),
